@@ -188,7 +188,7 @@ func savingTrial(kl int, stores credx.Mode, dir string) (violation string, held 
 
 func TestCancelWhileSaving(t *testing.T) {
 	n := envInt("VERIF_C20_SAVING", 6)
-	base, err := os.MkdirTemp(workDir(), "c20s-")
+	base, err := os.MkdirTemp(workDir(), "verif-c20-s-")
 	if err != nil {
 		t.Fatal(err)
 	}
@@ -206,8 +206,8 @@ func TestCancelWhileSaving(t *testing.T) {
 			mu.Lock()
 			defer mu.Unlock()
 			if v != "" {
-				if strings.Contains(v, "SIG=C20/"+sigNotSaved) && ev.IsKnown("C20", sigNotSaved) {
-					recSaving.KnownHit(sigNotSaved)
+				if strings.Contains(v, "SIG=C20/"+sigNotSaved) && isKnown(sigNotSaved) {
+					recSaving.KnownHit(listedSig(sigNotSaved))
 					return
 				}
 				violations = append(violations, v)
@@ -238,7 +238,8 @@ var recKill = ev.New("C20", "kill-during-save-loop",
 	"a child process runs an endless loop of acknowledged changes (add/update/delete walk over 6 names on top of 0..300 padding users), "+
 		"each followed by its debounce save on a fake clock, journaling intent/ack/save-due lines write-ahead; the parent SIGKILLs it after a "+
 		"random 0-60 ms; the store file must then be one complete document equal to a journaled state not older than the last save known "+
-		"complete, and a fresh server must start on it. Non-trivial: at least one save had completed and another change was in flight at the kill")
+		"complete, and a fresh server must start on it. Non-trivial: at least one save had completed and another change was in flight at the kill").
+	Require("kill-judged")
 
 type journalLine struct {
 	kind  string
@@ -366,7 +367,7 @@ func killTrial(i int, rng *rand.Rand, base string) (violation string, nontrivial
 
 func TestKillDuringSaves(t *testing.T) {
 	n := envInt("VERIF_C20_KILLS", 40)
-	base, err := os.MkdirTemp(workDir(), "c20k-")
+	base, err := os.MkdirTemp(workDir(), "verif-c20-k-")
 	if err != nil {
 		t.Fatal(err)
 	}
@@ -375,7 +376,7 @@ func TestKillDuringSaves(t *testing.T) {
 	sem := make(chan struct{}, envInt("VERIF_C20_PAR", 4))
 	var mu sync.Mutex
 	var wg sync.WaitGroup
-	var violations []string
+	var violations, harness []string
 	for i := 0; i < n; i++ {
 		rng := rand.New(rand.NewPCG(uint64(seedInt())+1, uint64(shard)*1000003+uint64(i)))
 		wg.Go(func() {
@@ -384,15 +385,20 @@ func TestKillDuringSaves(t *testing.T) {
 			v, nt, label := killTrial(i, rng, base)
 			mu.Lock()
 			defer mu.Unlock()
+			if strings.HasPrefix(v, "HARNESS") {
+				// the child could not be started/observed (overloaded machine): not a verdict
+				harness = append(harness, v)
+				return
+			}
 			if v != "" {
-				if strings.Contains(v, "kill-leaves-unloadable-store") && ev.IsKnown("C20", sigPartial) {
-					recKill.KnownHit(sigPartial)
+				if strings.Contains(v, "kill-leaves-unloadable-store") && isKnown(sigPartial) {
+					recKill.KnownHit(listedSig(sigPartial))
 					return
 				}
 				violations = append(violations, v)
 				return
 			}
-			recKill.Case(fmt.Sprintf("%s/%v", label, nt), nt, label)
+			recKill.Case(fmt.Sprintf("%s/%v", label, nt), nt, label, "kill-judged")
 		})
 	}
 	wg.Wait()
@@ -404,5 +410,10 @@ func TestKillDuringSaves(t *testing.T) {
 	}
 	if len(violations) > 0 {
 		t.Errorf("%d of %d kills left a bad store", len(violations), n)
+	}
+	for i, h := range harness {
+		if i < 3 {
+			t.Logf("not judged: %s", h)
+		}
 	}
 }
